@@ -39,6 +39,13 @@ def run_search(rep, tier, want_explain=False, statuses=("PANIC", "BUDGET", "C03"
         gplan = [("corpus", ["-n", "0", "-corpus", gram]), ("mutate", ["-n", str(ng * 5), "-seed", str(rep.seed + 1), "-corpus", gram]),
                  ("truncate", ["-n", str(ng // 10), "-corpus", gram]), ("litsub", ["-n", str(ng * 3), "-seed", str(rep.seed + 3), "-corpus", gram])]
     with open(cases, "w") as f:
+        # the inputs a 90-minute coverage-guided fuzzing run kept (one per newly covered path of lexer / parser / printers):
+        # a deterministic regression corpus, see harness/fuzz/fuzz_test.go
+        fz = os.path.join(verif.ROOT, "corpus", "fuzz_corpus.hex")
+        if os.path.exists(fz):
+            data = open(fz).read()
+            f.write(data)
+            dist["fuzz-corpus"] = data.count("\n")
         for mode, extra in plan + gplan:
             rc, out = verif.sh([PSEARCH, "gen", "-mode", mode] + extra, timeout=1200)
             if rc != 0:
